@@ -33,6 +33,8 @@ pub struct ParserState<'a> {
     strict: bool,
     file_ver: A2lVersion,
     pub(crate) a2mlspec: Vec<A2mlTypeSpec>,
+    // position of the last comment token that was handed out to be stored with a block
+    kept_comment_pos: Option<usize>,
 }
 
 /// describes the current parser context, giving the name of the current element and its file and line number
@@ -289,6 +291,7 @@ impl<'a> ParserState<'a> {
             strict,
             file_ver: A2lVersion::V1_7_1,
             a2mlspec: Vec::new(),
+            kept_comment_pos: None,
         }
     }
 
@@ -404,7 +407,15 @@ impl<'a> ParserState<'a> {
     /// - the function shouldn't be called while pos == 0, but this case would behave like pos==1
     pub(crate) fn get_line_offset(&self) -> u32 {
         if self.token_cursor.pos > 1 && self.token_cursor.pos < self.token_cursor.tokens.len() {
-            let prev_line = self.token_cursor.tokens[self.token_cursor.pos - 2].line;
+            let prev_token = &self.token_cursor.tokens[self.token_cursor.pos - 2];
+            let mut prev_line = prev_token.line;
+            if self.kept_comment_pos == Some(self.token_cursor.pos - 2) {
+                // a comment token carries the line on which it starts. If the comment is stored and
+                // written again, then its line breaks are written as part of the comment text, so
+                // they must not be counted a second time in the offset of the following token
+                let newlines = self.get_token_text(prev_token).matches('\n').count();
+                prev_line += u32::try_from(newlines).unwrap_or(0);
+            }
             let prev_fileid = self.token_cursor.tokens[self.token_cursor.pos - 2].fileid;
             let cur_line = self.token_cursor.tokens[self.token_cursor.pos - 1].line;
             let cur_fileid = self.token_cursor.tokens[self.token_cursor.pos - 1].fileid;
@@ -697,6 +708,10 @@ impl<'a> ParserState<'a> {
         {
             self.token_cursor.next(); // consume the peeked token
             let start_offset = self.get_line_offset();
+            // blocks store their comments; only the top level of the file (A2L_FILE) discards them
+            if context.element != "A2L_FILE" {
+                self.kept_comment_pos = Some(tokenpos);
+            }
             Ok(BlockContent::Comment(tokenval, start_offset))
         } else {
             // if the next token is /begin, then set is_block and skip the token
